@@ -699,13 +699,83 @@ func (w *walker) reroot(ops []*Op, from *Root, to Path) {
 	}
 }
 
+// orient returns the comparison with the operand for which wantLeft holds on the left (`12 > len(data)` is read as
+// `len(data) < 12`, `n > i` as `i < n`): the two spellings state the same predicate.
+func orient(be *ast.BinaryExpr, wantLeft func(ast.Expr) bool) *ast.BinaryExpr {
+	mirror := map[token.Token]token.Token{token.LSS: token.GTR, token.GTR: token.LSS, token.LEQ: token.GEQ, token.GEQ: token.LEQ, token.EQL: token.EQL, token.NEQ: token.NEQ}
+	m, isCmp := mirror[be.Op]
+	if !isCmp || wantLeft(ast.Unparen(be.X)) || !wantLeft(ast.Unparen(be.Y)) {
+		return be
+	}
+	return &ast.BinaryExpr{X: be.Y, OpPos: be.OpPos, Op: m, Y: be.X}
+}
+
+func isLenCall(e ast.Expr) bool {
+	call, ok := e.(*ast.CallExpr)
+	if !ok || len(call.Args) != 1 {
+		return false
+	}
+	id, ok := call.Fun.(*ast.Ident)
+	return ok && id.Name == "len"
+}
+
+// stepOf: the post statement changes idx by +1 / -1 (i++, i += 1, i = i + 1 and the decreasing forms); 0 otherwise.
+func (w *walker) stepOf(post ast.Stmt, idx types.Object) int {
+	isIdx := func(e ast.Expr) bool {
+		id, ok := ast.Unparen(e).(*ast.Ident)
+		return ok && w.info().Uses[id] == idx
+	}
+	isOne := func(e ast.Expr) bool {
+		tv, ok := w.info().Types[e]
+		if !ok || tv.Value == nil {
+			return false
+		}
+		k, exact := constant.Int64Val(tv.Value)
+		return exact && k == 1
+	}
+	switch p := post.(type) {
+	case *ast.IncDecStmt:
+		if isIdx(p.X) {
+			if p.Tok == token.INC {
+				return 1
+			}
+			return -1
+		}
+	case *ast.AssignStmt:
+		if len(p.Lhs) != 1 || len(p.Rhs) != 1 || !isIdx(p.Lhs[0]) {
+			return 0
+		}
+		switch p.Tok {
+		case token.ADD_ASSIGN:
+			if isOne(p.Rhs[0]) {
+				return 1
+			}
+		case token.SUB_ASSIGN:
+			if isOne(p.Rhs[0]) {
+				return -1
+			}
+		case token.ASSIGN:
+			if be, ok := ast.Unparen(p.Rhs[0]).(*ast.BinaryExpr); ok {
+				switch {
+				case be.Op == token.ADD && ((isIdx(be.X) && isOne(be.Y)) || (isIdx(be.Y) && isOne(be.X))):
+					return 1
+				case be.Op == token.SUB && isIdx(be.X) && isOne(be.Y):
+					return -1
+				}
+			}
+		}
+	}
+	return 0
+}
+
 func (w *walker) ifStmt(s *ast.IfStmt) {
 	if s.Init != nil {
 		w.stmt(s.Init)
 	}
 	// decode guard: if len(data) < K { return ... }
 	if !w.encode && len(w.frames) == 1 {
-		if be, ok := s.Cond.(*ast.BinaryExpr); ok && be.Op == token.LSS && s.Else == nil {
+		if be0, ok := s.Cond.(*ast.BinaryExpr); ok && s.Else == nil && orient(be0, isLenCall).Op == token.LSS {
+			be := orient(be0, isLenCall)
 			if call, ok := be.X.(*ast.CallExpr); ok {
 				if id, ok := call.Fun.(*ast.Ident); ok && id.Name == "len" && len(call.Args) == 1 {
 					if tv, ok := w.info().Types[be.Y]; ok && tv.Value != nil && endsInReturn(s.Body) && len(w.seq.Ops) == 0 {
@@ -785,6 +855,9 @@ func (w *walker) forStmt(s *ast.ForStmt) {
 		}
 	}
 	be, ok := s.Cond.(*ast.BinaryExpr)
+	if ok && idx != nil {
+		be = orient(be, func(e ast.Expr) bool { id, isID := e.(*ast.Ident); return isID && w.info().Uses[id] == idx })
+	}
 	if idx == nil || !ok || be.Op != token.LSS {
 		w.opaque(s.Pos(), "loop is not of the form for i := 0; i < n; i++")
 		return
@@ -793,7 +866,7 @@ func (w *walker) forStmt(s *ast.ForStmt) {
 		w.opaque(s.Pos(), "loop condition does not test the index variable")
 		return
 	}
-	if inc, ok := s.Post.(*ast.IncDecStmt); !ok || inc.Tok != token.INC {
+	if w.stepOf(s.Post, idx) != 1 {
 		w.opaque(s.Pos(), "loop post statement is not i++")
 		return
 	}
@@ -828,6 +901,9 @@ func (w *walker) appendUntilLoop(s *ast.ForStmt) bool {
 		return false
 	}
 	be, ok := s.Cond.(*ast.BinaryExpr)
+	if ok {
+		be = orient(be, isLenCall)
+	}
 	if !ok || be.Op != token.LSS {
 		return false
 	}
@@ -905,6 +981,9 @@ func (w *walker) countDownLoop(s *ast.ForStmt) bool {
 	}
 	idx := w.info().Defs[id]
 	be, ok := s.Cond.(*ast.BinaryExpr)
+	if ok && idx != nil {
+		be = orient(be, func(e ast.Expr) bool { id, isID := e.(*ast.Ident); return isID && w.info().Uses[id] == idx })
+	}
 	if idx == nil || !ok || be.Op != token.GTR {
 		return false
 	}
@@ -914,10 +993,7 @@ func (w *walker) countDownLoop(s *ast.ForStmt) bool {
 	if tv := w.info().Types[be.Y]; tv.Value == nil || constant.Sign(tv.Value) != 0 {
 		return false
 	}
-	if dec, ok := s.Post.(*ast.IncDecStmt); !ok || dec.Tok != token.DEC {
-		return false
-	}
-	if did, ok := s.Post.(*ast.IncDecStmt).X.(*ast.Ident); !ok || w.info().Uses[did] != idx {
+	if w.stepOf(s.Post, idx) != -1 {
 		return false
 	}
 	loop := &Op{Kind: LOOP, Pos: s.Pos()}
